@@ -264,13 +264,17 @@ def run(tier):
                     for fl in {0, 1, b - 1, b, b + 1, w * b, w * b + 1, 2 * w * b + 3}:
                         if fl <= 300_000 and w * min(b, fl + 1) <= 100_000:
                             combos.append((b, w, fl))
+            combos.append((8, 40, 8 * 40 * 2 + 5))      # a window larger than any small internal cap
+            combos.append((512, 100, 512 * 100 + 1))
             combos.append((None, None, 700))
             combos.append((None, None, 1024))
             combos.append((None, 3, 2000))
             combos.append((1000, None, 3000))
             if not thorough:
-                rng.shuffle(combos)
-                combos = combos[:40]
+                fixed = combos[-6:]
+                rest = combos[:-6]
+                rng.shuffle(rest)
+                combos = rest[:36] + fixed
             for b, w, fl in combos:
                 fname = f"t_{b}_{w}_{fl}.bin"
                 write(os.path.join(sb["srv"], fname), N.keyed_content(fname, fl))
